@@ -11,11 +11,13 @@
  * Before the threads start, every thread's bundle is evaluated once alone; during the concurrent phase every output must be
  * bit-identical to that reference.  Violations are keyed by the routine whose output changed.  The driver runs in the asan build
  * (ASan + UBSan watch the calls) and in the tsan build (ThreadSanitizer reports the racing accesses themselves).
- * The processor count the library sees is pinned to 1 (H1) so that PCA / CPCA do not fan out threads of their own. */
+ * The processor count the library sees (H1) alternates between 1 and 2: with 2, PCA / CPCA run their threaded kernels inside each caller. */
 #include "drv_util.h"
 #include <pthread.h>
 
-#define MAXOUT 10
+#define MAXOUT 16
+static const char *OPTFIT[6] = { "", "MatrixPreprocess(option 1)", "MatrixPreprocess(option 2)", "MatrixPreprocess(option 3)", "MatrixPreprocess(option 4)", "MatrixPreprocess(option 5)" };
+static const char *OPTAPP[6] = { "", "MatrixPreprocess(apply, option 1)", "MatrixPreprocess(apply, option 2)", "MatrixPreprocess(apply, option 3)", "MatrixPreprocess(apply, option 4)", "MatrixPreprocess(apply, option 5)" };
 typedef struct {
   int prop;                 /* bundle id */
   size_t n, p, ny;
@@ -23,11 +25,15 @@ typedef struct {
   int scaling;
   matrix *ref[MAXOUT]; const char *fn[MAXOUT]; int nout;
   int reps, bad[MAXOUT];
+  /* a model fitted once and READ by all threads at the same time (prediction on a shared model); `twin` is an identically fitted second
+     model on which the reference is computed, so that the shared one is untouched until the threads start (lazy caches inside a model) */
+  void *shared, *twin; int phase; matrix *sx; tensor *st;
 } cw_t;
 
 enum { B_C01, B_C03, B_C07, B_C08, B_C09, B_C10, B_C11, B_C14, B_C19, B_N };
 static const char *BNAME[B_N] = { "C01", "C03", "C07", "C08", "C09", "C10", "C11", "C14", "C19" };
 static int g_prop = -1;
+static void *g_sh, *g_tw;
 
 static long ncases(int tier) { return vh_is_tsan() ? (tier ? 1200 : 90) : (tier ? 4000 : 200); }
 
@@ -44,6 +50,7 @@ static int bundle(cw_t *w, matrix **out, const char **fn)
     initMatrix(&out[k]); MatrixCopy(m->scores, &out[k]); fn[k++] = "PCA";
     initMatrix(&out[k]); PCAScorePredictor(w->x, m, 2, out[k]); fn[k++] = "PCAScorePredictor";
     initMatrix(&out[k]); PCAIndVarPredictor(m->scores, m->loadings, m->colaverage, m->colscaling, 2, out[k]); fn[k++] = "PCAIndVarPredictor";
+    if (w->shared) { initMatrix(&out[k]); PCAScorePredictor(w->x, (PCAMODEL *)(w->phase ? w->shared : w->twin), 2, out[k]); fn[k++] = "PCAScorePredictor(shared model)"; }
     DelPCAModel(&m); break; }
   case B_C03: {
     PLSMODEL *m; matrix *ts; NewPLSModel(&m); PLS(w->x, w->y, 2, w->scaling, 0, m, NULL);
@@ -52,12 +59,14 @@ static int bundle(cw_t *w, matrix **out, const char **fn)
     initMatrix(&ts); initMatrix(&out[k]); PLSYPredictorAllLV(w->x, m, ts, out[k]); fn[k++] = "PLSYPredictorAllLV"; DelMatrix(&ts);
     initMatrix(&out[k]); PLSScorePredictor(w->x, m, 2, out[k]); fn[k++] = "PLSScorePredictor";
     { dvector *b; initDVector(&b); PLSBetasCoeff(m, 2, b); initMatrix(&out[k]); put_vec(out[k], b); fn[k++] = "PLSBetasCoeff"; DelDVector(&b); }
+    if (w->shared) { matrix *t2; initMatrix(&t2); initMatrix(&out[k]); PLSYPredictorAllLV(w->x, (PLSMODEL *)(w->phase ? w->shared : w->twin), t2, out[k]); fn[k++] = "PLSYPredictorAllLV(shared model)"; DelMatrix(&t2); }
     DelPLSModel(&m); break; }
   case B_C07: {
     MLRMODEL *m; NewMLRModel(&m); MLR(w->x, w->y, m, NULL);
     initMatrix(&out[k]); MatrixCopy(m->b, &out[k]); fn[k++] = "MLR";
     initMatrix(&out[k]); MLRPredictY(w->x, NULL, m, out[k], NULL, NULL, NULL); fn[k++] = "MLRPredictY";
     { dvector *co; initDVector(&co); OrdinaryLeastSquares(w->x, w->v, co); initMatrix(&out[k]); put_vec(out[k], co); fn[k++] = "OrdinaryLeastSquares"; DelDVector(&co); }
+    if (w->shared) { initMatrix(&out[k]); MLRPredictY(w->x, NULL, (MLRMODEL *)(w->phase ? w->shared : w->twin), out[k], NULL, NULL, NULL); fn[k++] = "MLRPredictY(shared model)"; }
     DelMLRModel(&m); break; }
   case B_C08: {
     LDAMODEL *m; matrix *pf, *pr, *mn, *pd; NewLDAModel(&m); LDA(w->x, w->lab, m);
@@ -66,19 +75,22 @@ static int bundle(cw_t *w, matrix **out, const char **fn)
     LDAPrediction(w->x, m, pf, pr, mn, pd);
     initMatrix(&out[k]); MatrixCopy(pr, &out[k]); fn[k++] = "LDAPrediction(probability)";
     initMatrix(&out[k]); MatrixCopy(pd, &out[k]); fn[k++] = "LDAPrediction(prediction)";
-    DelMatrix(&pf); DelMatrix(&pr); DelMatrix(&mn); DelMatrix(&pd); DelLDAModel(&m); break; }
+    DelMatrix(&pf); DelMatrix(&pr); DelMatrix(&mn); DelMatrix(&pd);
+    if (w->shared) { initMatrix(&pf); initMatrix(&pr); initMatrix(&mn); initMatrix(&pd); LDAPrediction(w->x, (LDAMODEL *)(w->phase ? w->shared : w->twin), pf, pr, mn, pd); initMatrix(&out[k]); MatrixCopy(pr, &out[k]); fn[k++] = "LDAPrediction(shared model)"; DelMatrix(&pf); DelMatrix(&pr); DelMatrix(&mn); DelMatrix(&pd); }
+    DelLDAModel(&m); break; }
   case B_C09: {
     CPCAMODEL *m; tensor *pb; NewCPCAModel(&m); CPCA(w->t, w->scaling > 0 ? w->scaling : 1, 2, m);
     initMatrix(&out[k]); MatrixCopy(m->super_scores, &out[k]); fn[k++] = "CPCA";
     initMatrix(&out[k]); initTensor(&pb); CPCAScorePredictor(w->t, m, 2, out[k], pb); fn[k++] = "CPCAScorePredictor"; DelTensor(&pb);
+    if (w->shared) { tensor *pb2; initMatrix(&out[k]); initTensor(&pb2); CPCAScorePredictor(w->t, (CPCAMODEL *)(w->phase ? w->shared : w->twin), 2, out[k], pb2); fn[k++] = "CPCAScorePredictor(shared model)"; DelTensor(&pb2); }
     DelCPCAModel(&m); break; }
   case B_C10: {
     dvector *avg, *scl; matrix *tr; int opt;
-    for (opt = 1; opt <= 4; opt += 3) {
+    for (opt = 1; opt <= 5; opt++) {
       initDVector(&avg); initDVector(&scl); NewMatrix(&out[k], w->x->row, w->x->col);     /* the caller sizes the output of MatrixPreprocess */
-      MatrixPreprocess(w->x, opt, avg, scl, out[k]); fn[k++] = opt == 1 ? "MatrixPreprocess(option 1)" : "MatrixPreprocess(option 4)";
+      MatrixPreprocess(w->x, opt, avg, scl, out[k]); fn[k++] = OPTFIT[opt];
       NewMatrix(&tr, w->x->row, w->x->col); MatrixPreprocess(w->x, -1, avg, scl, tr);      /* apply path: the caller sizes the output, as the predictors do */
-      initMatrix(&out[k]); MatrixCopy(tr, &out[k]); fn[k++] = opt == 1 ? "MatrixPreprocess(apply, option 1)" : "MatrixPreprocess(apply, option 4)";
+      initMatrix(&out[k]); MatrixCopy(tr, &out[k]); fn[k++] = OPTAPP[opt];
       DelMatrix(&tr); DelDVector(&avg); DelDVector(&scl);
     }
     { dvector *mn, *mxv; initDVector(&mn); initDVector(&mxv); for (j = 0; j < w->x->col; j++) { double a, b; MatrixColumnMinMax(w->x, j, &a, &b); DVectorAppend(mn, a); DVectorAppend(mxv, b); } initMatrix(&out[k]); put_vec(out[k], mxv); fn[k++] = "MatrixColumnMinMax"; DelDVector(&mn); DelDVector(&mxv); }
@@ -136,6 +148,7 @@ static void *worker(void *a)
 static void make_data(vh_ctx *c, cw_t *w)
 {
   size_t n = (size_t)vh_int(c, 10, 18), p = (size_t)vh_int(c, 3, 5), i, j;
+  if (w->p) p = w->p;                 /* forced: same variables as thread 0 (shared-model predictions) */
   w->n = n; w->p = p; w->ny = 2; w->scaling = (int)vh_int(c, 0, 2);
   NewMatrix(&w->x, n, p); NewMatrix(&w->y, n, 2); NewMatrix(&w->lab, n, 1); NewDVector(&w->v, n); NewDVector(&w->q, p);
   for (i = 0; i < n; i++) {
@@ -160,19 +173,40 @@ static void run_case(vh_ctx *c)
     for (b = 0; b < B_N; b++) if (e && !strcmp(e, BNAME[b])) g_prop = b;
     if (g_prop < 0) { vh_class(c, "no-bundle"); vh_inconclusive(c, "CCONC_PROP not set to a known property"); return; }
   }
-  libsci_verif_nprocs = 1;
-  vh_class(c, "concurrent-callers-%s-%d", BNAME[g_prop], K);
+  /* one reported processor (no inner fan-out) or, for every other case, two: PCA / CPCA then run their threaded matrix-vector kernels inside each caller */
+  libsci_verif_nprocs = (c->idx & 1) ? 2 : 1;
+  vh_class(c, "concurrent-callers-%s-%d-np%zu", BNAME[g_prop], K, libsci_verif_nprocs);
   vh_desc(c, "%d threads x %d repetitions of the %s bundle on private data", K, reps, BNAME[g_prop]);
-  for (t = 0; t < K; t++) {
-    memset(&w[t], 0, sizeof w[t]); w[t].prop = g_prop; w[t].reps = reps;
-    make_data(c, &w[t]);
-    w[t].nout = bundle(&w[t], w[t].ref, w[t].fn);
-    nout = w[t].nout;
+  for (t = 0; t < K; t++) { memset(&w[t], 0, sizeof w[t]); w[t].prop = g_prop; w[t].reps = reps; if (t) w[t].p = w[0].p; make_data(c, &w[t]); }
+  /* every thread's data has the shape of thread 0's for the shared-model predictions: same variables / blocks */
+  {
+    void *sh = NULL, *tw = NULL; int z;
+    for (z = 0; z < 2; z++) {
+      void *mm = NULL;
+      if (g_prop == B_C01) { PCAMODEL *m; NewPCAModel(&m); PCA(w[0].x, w[0].scaling, 2, m, NULL); mm = m; }
+      else if (g_prop == B_C03) { PLSMODEL *m; NewPLSModel(&m); PLS(w[0].x, w[0].y, 2, w[0].scaling, 0, m, NULL); mm = m; }
+      else if (g_prop == B_C07) { MLRMODEL *m; NewMLRModel(&m); MLR(w[0].x, w[0].y, m, NULL); mm = m; }
+      else if (g_prop == B_C08) { LDAMODEL *m; NewLDAModel(&m); LDA(w[0].x, w[0].lab, m); mm = m; }
+      else if (g_prop == B_C09) { CPCAMODEL *m; NewCPCAModel(&m); CPCA(w[0].t, w[0].scaling > 0 ? w[0].scaling : 1, 2, m); mm = m; }
+      if (z == 0) sh = mm; else tw = mm;
+    }
+    for (t = 0; t < K; t++) { w[t].shared = (w[t].p == w[0].p) ? sh : NULL; w[t].twin = tw; }
+    g_sh = sh; g_tw = tw;
   }
-  for (k = 0; k < nout; k++) fn[k] = w[0].fn[k];
+  for (t = 0; t < K; t++) { w[t].nout = bundle(&w[t], w[t].ref, w[t].fn); if (w[t].nout > nout) nout = w[t].nout; }
+  for (k = 0; k < nout; k++) fn[k] = w[0].fn[k];      /* thread 0 always has the shared-model output: it is the longest list */
+  for (t = 0; t < K; t++) w[t].phase = 1;
   for (t = 0; t < K; t++) pthread_create(&th[t], NULL, worker, &w[t]);
   for (t = 0; t < K; t++) pthread_join(th[t], NULL);
   for (t = 0; t < K; t++) { for (k = 0; k < w[t].nout; k++) { bad[k] += w[t].bad[k]; DelMatrix(&w[t].ref[k]); } free_data(&w[t]); }
+  if (g_sh) {
+    if (g_prop == B_C01) { PCAMODEL *a = g_sh, *b = g_tw; DelPCAModel(&a); DelPCAModel(&b); }
+    else if (g_prop == B_C03) { PLSMODEL *a = g_sh, *b = g_tw; DelPLSModel(&a); DelPLSModel(&b); }
+    else if (g_prop == B_C07) { MLRMODEL *a = g_sh, *b = g_tw; DelMLRModel(&a); DelMLRModel(&b); }
+    else if (g_prop == B_C08) { LDAMODEL *a = g_sh, *b = g_tw; DelLDAModel(&a); DelLDAModel(&b); }
+    else if (g_prop == B_C09) { CPCAMODEL *a = g_sh, *b = g_tw; DelCPCAModel(&a); DelCPCAModel(&b); }
+    g_sh = g_tw = NULL;
+  }
   vh_obs("concurrent_caller_cases", 1); vh_obs("concurrent_calls", (double)K * reps * nout);
   for (k = 0; k < nout; k++) if (bad[k]) { char key[128]; snprintf(key, sizeof key, "%s|result-depends-on-concurrent-callers", fn[k]); vh_fail(c, key, "%d of %d concurrent calls returned another result than the same call made alone", bad[k], K * reps); }
 }
